@@ -66,6 +66,8 @@ def check(ctx):
     sub0 = type(ctx)(ctx.pid, ctx.an, ctx.tier)
     check_container_validators(sub0)
     ctx.obligations.extend(o for o in sub0.obligations if "container.returns-own-proxy" in o.rule)
+    from .common import check_own_tables
+    check_own_tables(ctx)       # shared clause: the field table to_tree reads / the tables configurations must not share
     to_tree = model.method("Config", "to_tree")
     ctx.need(mask_param(to_tree) is not None, "Config.to_tree lost its sensitive_mask parameter")
     fam = to_tree_family(an)
